@@ -17,7 +17,7 @@ func TestC16(t *testing.T) {
 	mon.Main(t, mon.Check{
 		ID:    "C16",
 		Level: "exploration",
-		Rule: "(R) read fragmentation: the same handshake (same static keys, passphrase, deterministic ephemeral keys, version ranges, auth payload 0..1 MiB) is run unfragmented and over streams whose every Read returns at most k bytes, k in {1,2,3,7,16,33,100} or a PRNG sequence, for both roles, XX and KK; afterwards records of sizes {0,1,15,16,17,100,65535} are read through the same fragmenting stream. Oracle: identical outcome (success, negotiated version, payload, traffic keys, plaintexts). (W) partial writes: a writer that accepts bytes only up to the next cut of a partition and then returns a timeout error; for payload sizes {0,1,15,16,17,100} all two-way and all three-way splits of the record's 18+len+16 wire bytes, PRNG finer partitions for 1000 and 65535 bytes; Flush is repeated until it succeeds and WriteMessage is attempted in between. Oracle: the bytes emitted, concatenated, equal the single-shot encoding produced by a bit-identical twin session; the counts returned by the Flush calls add up to len(plaintext); every WriteMessage between the first and the last Flush returns ErrMessageNotFlushed and changes nothing; the peer decrypts the plaintext. Non-trivial = every case (each fragments); distinct = (kind, sizes, fragmentation).",
+		Rule: "(R) read fragmentation: the same handshake (same static keys, passphrase, deterministic ephemeral keys, version ranges, auth payload 0..1 MiB) is run unfragmented and over streams whose every Read returns at most k bytes, k in {1,2,3,7,16,33,100} or a PRNG sequence, for both roles, XX and KK; afterwards records of sizes {0,1,15,16,17,100,65535} are read through the same fragmenting stream. Oracle: identical outcome (success, negotiated version, payload, traffic keys, plaintexts). (P) pipelining: the party that sends the last act writes its first record right behind it and both arrive in one chunk (read caps 0/1/7/64/100/4096); the record must be read back. (W) partial writes: a writer that accepts bytes only up to the next cut of a partition and then returns a timeout error; for payload sizes {0,1,15,16,17,100} all two-way and all three-way splits of the record's 18+len+16 wire bytes, PRNG finer partitions for 1000 and 65535 bytes; Flush is repeated until it succeeds and WriteMessage is attempted in between. Oracle: the bytes emitted, concatenated, equal the single-shot encoding produced by a bit-identical twin session; the counts returned by the Flush calls add up to len(plaintext); every WriteMessage between the first and the last Flush returns ErrMessageNotFlushed and changes nothing; the peer decrypts the plaintext. Non-trivial = every case (each fragments); distinct = (kind, sizes, fragmentation).",
 		Assumptions: []string{"twin sessions are made bit-identical through the EphemeralGen field of BrontideMachineConfig"},
 		Exhaustive:  false,
 		NCases: func(tier string) int {
@@ -31,7 +31,39 @@ func TestC16(t *testing.T) {
 	})
 }
 
+// runC16Pipelined: the party that sends the last act writes a record right
+// behind it and the transport delivers both in one chunk.
+func runC16Pipelined(c *mon.Case) {
+	rng := c.Rng
+	for trial := 0; trial < 6; trial++ {
+		kk := rng.Intn(2) == 0
+		pass := eng.Entropy(rng)
+		vmax := byte(rng.Intn(3))
+		cfg := eng.HSConfig{KK: kk, CMin: 0, CMax: 2, SMin: 0, SMax: vmax, PassC: pass, PassS: pass, Auth: authMarker(rng, rng.Intn(300)), KeyC: eng.NewKey(rng), KeyS: eng.NewKey(rng)}
+		if kk {
+			cfg.CMin, cfg.SMin, cfg.SMax = 2, 2, 2
+		}
+		k := []int{0, 1, 7, 64, 100, 4096}[rng.Intn(6)]
+		plain := eng.MsgBytes('p', trial, []int{0, 1, 17, 300}[rng.Intn(4)])
+		ce, se, got, rerr := eng.RunPipelined(cfg, plain, func() int { return k })
+		rep := map[string]any{"kind": "P", "kk": kk, "server_max_version": cfg.SMax, "max_read": k, "record_len": len(plain)}
+		if ce != nil || se != nil {
+			c.Shard.Violate("pipelined-handshake-fails", fmt.Sprintf("handshake with a record pipelined behind the last act failed: client=%v server=%v (max read %d, kk=%v)", ce, se, k, kk), rep)
+			continue
+		}
+		if rerr != nil || !bytes.Equal(got, plain) {
+			c.Shard.Violate("pipelined-record-lost", fmt.Sprintf("the record written right behind the last handshake act (delivered in the same chunk) was not read back: err=%v, %d of %d bytes (max read %d, kk=%v)", rerr, len(got), len(plain), k, kk), rep)
+		}
+		c.Shard.Count("pipelined_handshakes", 1)
+	}
+	c.Shard.Eval(fmt.Sprintf("P|%d", c.Idx))
+}
+
 func runC16(c *mon.Case) {
+	if c.Idx%10 == 9 {
+		runC16Pipelined(c)
+		return
+	}
 	if c.Idx%2 == 0 {
 		runC16Reads(c)
 	} else {
